@@ -82,6 +82,7 @@ type vsRun struct {
 
 	nextCapture int
 	brokenFiles int
+	svcLog      *veLogBuffer
 	// a call that does not return or work that does not settle ends the case as inconclusive instead of failing it
 	hangInconclusive bool
 	lazyViews        int
@@ -1026,7 +1027,24 @@ func (r *vsRun) checkViewCompleteMode(v *vsView, handedOver bool) {
 	}
 	if fmt.Sprint(got) != fmt.Sprint(want) {
 		if handedOver {
-			r.fatalf("at quiescence a fresh view shows\n%v\nbut the captures handed over for import (%v) contain\n%v", got, imported, want)
+			diag := ""
+			if r.svcLog != nil {
+				ents, _ := os.ReadDir(r.e.dirs.pcap)
+				for _, en := range ents {
+					fi, _ := en.Info()
+					if fi != nil {
+						diag += fmt.Sprintf(" %s(%d bytes)", en.Name(), fi.Size())
+					}
+				}
+				r.svcLog.mu.Lock()
+				lg := r.svcLog.buf.String()
+				r.svcLog.mu.Unlock()
+				if len(lg) > 6000 {
+					lg = lg[len(lg)-6000:]
+				}
+				diag = "\ncapture directory:" + diag + "\nservice log (tail):\n" + lg
+			}
+			r.fatalf("at quiescence a fresh view shows\n%v\nbut the captures handed over for import (%v) contain\n%v%s", got, imported, want, diag)
 		}
 		r.fatalf("a view opened after imports %v were processed shows\n%v\nbut those captures contain\n%v", imported, got, want)
 	}
@@ -1813,11 +1831,12 @@ func vsScenario(rt *rapid.T, c *vlib.Case, t *testing.T, cfg vsConfig, open map[
 	os.Setenv("VERIF_CONV_LOG", filepath.Join(base, "conversions.log"))
 	// C13: a background job that reads an index file after it was closed only shows in the service's log
 	var svcLog *veLogBuffer
-	if cfg.focus == "C13" && os.Getenv("VERIF_MANAGER_LOG") == "" {
+	if (cfg.focus == "C13" || cfg.focus == "C10") && os.Getenv("VERIF_MANAGER_LOG") == "" {
 		svcLog = &veLogBuffer{}
 		log.SetOutput(svcLog)
 		defer log.SetOutput(io.Discard)
 	}
+	r.svcLog = svcLog
 	e, err := veStart(d, false)
 	if err != nil {
 		rt.Fatalf("manager.New: %v", err)
@@ -1855,7 +1874,7 @@ func vsScenario(rt *rapid.T, c *vlib.Case, t *testing.T, cfg vsConfig, open map[
 	}
 	rt.Repeat(actions)
 	r.finalChecks()
-	if svcLog != nil {
+	if svcLog != nil && cfg.focus == "C13" {
 		if line := svcLog.find("file already closed", "bad file descriptor", "use of closed file"); line != "" {
 			r.fatalf("a background job used an index file after it had been closed; the service logged: %s", line)
 		}
